@@ -197,11 +197,25 @@ func checkExactTextEquality(w *World, c *Check, rule string) {
 		n++
 		key := tn.Obj().Name() + ".Equals"
 		bad := ""
+		identity := false
 		pos := w.FuncPos(m)
 		for _, g := range w.Reach([]*ssa.Function{m}, nil) {
 			for _, fn := range append([]*ssa.Function{g}, allAnon(g)...) {
 				for _, b := range fn.Blocks {
 					for _, in := range b.Instrs {
+						// identity of storage is not equality of text: two views that start at the same address can have
+						// different lengths (a prefix re-slice), so &a[0] == &b[0] must never settle the verdict
+						if bo, isB := in.(*ssa.BinOp); isB && (bo.Op == token.EQL || bo.Op == token.NEQ) && bad == "" && w.InPkg(fn) {
+							if _, isPtr := types.Unalias(bo.X.Type()).Underlying().(*types.Pointer); isPtr && !isNilConst(bo.X) && !isNilConst(bo.Y) {
+								_, xIdx := bo.X.(*ssa.IndexAddr)
+								_, yIdx := bo.Y.(*ssa.IndexAddr)
+								if xIdx || yIdx {
+									bad = fmt.Sprintf("%s compares the addresses of two texts' bytes (in %s)", key, funcName(fn))
+									pos = w.InstrPos(in)
+									identity = true
+								}
+							}
+						}
 						call, ok := in.(ssa.CallInstruction)
 						if !ok {
 							continue
@@ -218,7 +232,9 @@ func checkExactTextEquality(w *World, c *Check, rule string) {
 				}
 			}
 		}
-		if bad != "" {
+		if identity {
+			c.bad(rule, key, pos, bad+": two texts that share their first byte but differ in length (one is a prefix view of the other's buffer) compare equal although Get returns different texts for them")
+		} else if bad != "" {
 			c.bad(rule, key, pos, bad+": texts that differ only in letter case or padding compare equal, so item equality, Contains and the decoder's skip of list members already present (Append) treat two different texts as one — the second sibling is dropped on decode")
 		} else {
 			c.ok(rule, key, pos, "no case-folding or trimming comparison in its closure")
